@@ -198,15 +198,40 @@ theorem inv_distribute (h : Inv c s) (hpc : s.pc t = Pc.cRun []) :
   simp only [nCharge] at hc
   obtain ⟨hr, hf⟩ := alive_of_held h (t := t) (by omega)
   have hw : wacts c (setPc (distribute c s) t (Pc.hRun (c.prog t))) = wacts c s :=
-    wacts_setPc c s _ t _ rfl (by simp [hpc, actsOf]) (by simp [actsOf])
+    wacts_setPc c s _ t _ (by unfold distribute; split <;> rfl) (by simp [hpc, actsOf]) (by simp [actsOf])
   have h1 := count_thread_map
   have h2 := count_ctx_map
   have h3 := count_tracer_map
   have h4 := count_handleTids c
   have hk := kind_handle_iff c
   have hk0 := kind_creator_iff c
-  simp only [setPc, distribute, touch] at hw ⊢
-  inv_auto h
+  unfold distribute at hw ⊢
+  cases hg : s.given
+  · simp only [Bool.false_eq_true, if_false, setPc, giveHandles, touch] at hw ⊢
+    inv_auto h
+  · simp only [if_true, setPc] at hw ⊢
+    inv_auto h
+
+/-- mode ip: `init_if_needed()`, the copies for the handle threads, then `get_promise()`'s exchange -/
+theorem inv_c_giveInit (h : Inv c s) (is : List CI) (hpc : s.pc t = Pc.cRun (CI.giveInit :: is)) :
+    Inv c (setPc (if s.given then touch s else giveHandles c s) t (Pc.cRun is)) := by
+  obtain ⟨h0, hn, hf, hr, ha⟩ := ctor_facts h _ _ hpc
+  have hw : wacts c (setPc (if s.given then touch s else giveHandles c s) t (Pc.cRun is)) = wacts c s :=
+    wacts_setPc c s _ t _ (by split <;> rfl) ha (by simp [actsOf])
+  have hc := h.aCtor t _ hpc
+  simp only [nCharge, List.mem_cons] at hc
+  have h1 := count_thread_map
+  have h2 := count_ctx_map
+  have h3 := count_tracer_map
+  have h4 := count_handleTids c
+  have hk := kind_handle_iff c
+  have hk0 := kind_creator_iff c
+  have hm' : CI.loadTmp ∈ CI.giveInit :: is ↔ CI.loadTmp ∈ is := by simp
+  cases hg : s.given
+  · simp only [Bool.false_eq_true, if_false, setPc, giveHandles, touch] at hw ⊢
+    inv_auto h
+  · simp only [if_true, setPc, touch] at hw ⊢
+    inv_auto h
 
 /-! ### subscribe CAS, blocking wait, reading the result -/
 
